@@ -516,7 +516,13 @@ struct BigInt {
 
             case BigIntOperation::And: {
                 storage_[0U] &= number;
-                index_ = 0U;
+
+                // The result fits the first word: clear the rest.
+                while (index_ != 0U) {
+                    storage_[index_] = 0;
+                    --index_;
+                }
+
                 break;
             }
 
@@ -530,6 +536,8 @@ struct BigInt {
     template <BigIntOperation Operation, typename N_Number_T>
     inline void doOperation(N_Number_T number) noexcept {
         constexpr bool is_bigger_size = (((sizeof(N_Number_T) * 8U) / TypeWidth()) > 1U);
+        const SizeT32  last_index     = index_;
+        SizeT32        index          = 1U;
 
         switch (Operation) {
             case BigIntOperation::Add: {
@@ -560,7 +568,6 @@ struct BigInt {
         }
 
         if QENTEM_CONST_EXPRESSION (is_bigger_size) {
-            SizeT32 index = 1U;
             number >>= TypeWidth();
 
             while (number != N_Number_T{0}) {
@@ -602,6 +609,14 @@ struct BigInt {
                 }
 
                 number >>= TypeWidth();
+                ++index;
+            }
+        }
+
+        if QENTEM_CONST_EXPRESSION (Operation == BigIntOperation::And) {
+            // Words above the operand's last chunk are ANDed with zero.
+            while (index <= last_index) {
+                storage_[index] = 0;
                 ++index;
             }
         }
